@@ -3,7 +3,7 @@ import itertools
 
 import numpy as np
 
-from vlib import clock, guards, graphs as G, gens, oracles
+from vlib import alias, clock, guards, graphs as G, gens, oracles
 from vlib.base import import_dsw
 from vlib.coding import monitored, bits_equal
 
@@ -77,6 +77,20 @@ def check_table(ctx, case):
         ctx.fail("side-effect", "create_random_shuffles(%d, %r) raised audit events %s" % (k, seed, effects[:3]))
     ctx.mon("audit-windows-observed")
     if seed is not None:
+        # G1: the caller edits the table it was given; the same seed must still give the original table
+        want = t.copy()
+        checked, same, second = alias.repeat_after_scramble(dsw.create_random_shuffles, (k, seed), {}, out.value)
+        if checked:
+            ctx.cls("same seed requested again after the first table was scrambled")
+            if not same:
+                ctx.fail("same-seed-different-table", "create_random_shuffles(%d, %r) after the caller edited the first table in place no "
+                         "longer returns the original table" % (k, seed))
+        t = want
+        smaller = monitored(dsw.create_random_shuffles, 200 * n + 5000, max(k - 1, 1), seed)
+        if smaller.kind == "ok":
+            ts = np.asarray(smaller.value)
+            if ts.shape != (4 ** max(k - 1, 1), 4) or any(sorted(r) != [0, 1, 2, 3] for r in ts.tolist()):
+                ctx.fail("row-not-a-permutation", "create_random_shuffles(%d, %r) requested after a larger table of the same seed is malformed" % (max(k - 1, 1), seed))
         for _ in range(case["noise"]):
             np.random.random()
         np.random.seed(ctx.rng.getrandbits(32))
@@ -107,6 +121,7 @@ def check_induced(ctx, case):
             acc[start, j] = -1
     d = len(live)
     table = np.array([perm] * 16, dtype=int)
+    table_before = table.copy()
     order = sorted(live, key=lambda j: perm[j])   # digit r -> live arc with r-th smallest table entry
     where = "table row %s, live arcs %s" % (perm, ["ACGT"[j] for j in live])
     firsts = []
@@ -152,6 +167,23 @@ def check_induced(ctx, case):
             elif (a.kind == "ok") != G.walk(acc, start, s)["ok"]:
                 ctx.fail("acceptance-differs-from-walks", "decode(%r) %s; walk oracle says %s; %s" % (s, a.describe(), G.walk(acc, start, s)["ok"], where))
     ctx.evaluations += 85
+    if not np.array_equal(table, table_before):
+        ctx.fail("table-modified", "encode/decode changed the caller's shuffle table in place: row %s became %s; %s" % (
+            perm, table[start].tolist(), where))
+    # G2: the same accessor and table objects, the live-arc pattern of the start vertex changed in place
+    other = case["pattern"] % 15 + 1
+    live2 = [j for j in range(4) if (other >> j) & 1]
+    for j in range(4):
+        acc[start, j] = (start * 4 + j) % 16 if j in live2 else -1
+    order2 = sorted(live2, key=lambda j: perm[j])
+    for r in range(len(live2)):
+        value = r + len(live2) if len(live2) > 1 else 1 + r
+        out = monitored(dsw.encode, 10 ** 6, np.array(oracles.value_bits(value, 4)), acc, start, shuffles=table)
+        if out.kind != "ok" or not out.value or out.value[0] != "ACGT"[order2[r]]:
+            ctx.fail("digit-to-arc-map-after-edit", "after the accessor was edited in place (live arcs %s -> %s) digit %d gives %s, expected %s; table row %s" % (
+                ["ACGT"[j] for j in live], ["ACGT"[j] for j in live2], r, out.describe(), "ACGT"[order2[r]], perm))
+            break
+    ctx.cls("induced map re-checked after an in-place edit")
     ctx.cls("pattern size %d" % d)
     ctx.done("induced", case, d >= 2 and perm != [0, 1, 2, 3])
 
@@ -164,6 +196,9 @@ def floors(agg, tier):
     c = agg["classes"]
     for name, need in (("table|seeded", 200), ("table|seed None", 5), ("pattern size 1", 96), ("pattern size 2", 144),
                        ("pattern size 3", 96), ("pattern size 4", 24), ("fast-mode pattern", 168)):
+        if c.get(name, 0) < need:
+            out.append("%s observed %d < %d" % (name, c.get(name, 0), need))
+    for name, need in (("same seed requested again after the first table was scrambled", 100), ("induced map re-checked after an in-place edit", 300)):
         if c.get(name, 0) < need:
             out.append("%s observed %d < %d" % (name, c.get(name, 0), need))
     if len(agg["sets"].get("distinct-rows", ())) < 24:
